@@ -39,8 +39,8 @@ ASSUMPTIONS = [
 EXPECTED_PROBES = ["A.failglyph", "A.backend.zip", "A.backend.osfs", "A.reopen", "A.glyph_readback", "A.ci", "A.clash_candidate", "B.roundtrip", "C.roundtrip", "N.names"]
 
 TIERS = {
-    "quick": {"budget_s": 150, "determinism_sample": 16, "n": {"ufo": 9000, "designspace": 2500, "plist": 6000, "names": 6000}, "minimise_s": 40, "max_minimise": 4},
-    "thorough": {"budget_s": 1500, "determinism_sample": 200, "n": {"ufo": 150000, "designspace": 40000, "plist": 100000, "names": 100000}, "minimise_s": 120, "max_minimise": 8},
+    "quick": {"budget_s": 600, "determinism_sample": 16, "n": {"ufo": 9000, "designspace": 2500, "plist": 6000, "names": 6000}, "minimise_s": 40, "max_minimise": 4},
+    "thorough": {"budget_s": 5400, "determinism_sample": 200, "n": {"ufo": 150000, "designspace": 40000, "plist": 100000, "names": 100000}, "minimise_s": 120, "max_minimise": 8},
 }
 
 
